@@ -35,6 +35,18 @@ Definition items_obs (oc : outcome) (items : list (item B3)) : list N :=
   | Failed e => dec_rc e ++ [0; N.of_nat (length items)] ++ flat_map item_obs items
   end.
 
+(* driver 2: decode_ranges = run the iterator, write the leaves; 300 further bytes follow the response *)
+Definition trailing (a : list N) : bytes := gen_data 0 (arg a 1 + 1) 300.
+Definition leaves_into (items : list (item B3)) (t0 : bytes) : bytes :=
+  fold_left (fun t it => match it with ILeaf off d => write_at B3 t off d | _ => t end) items t0.
+Definition dr_obs (size : N) (r : list (item B3) * outcome * dstate_r B3) : list N :=
+  let '(items, oc, st) := r in
+  match oc with
+  | Panicked | OutOfFuel => [PANIC]
+  | Finished => [0; 0; 0; blen B3 (rd_rest B3 (dr_rd B3 st)); dg (leaves_into items (zeros B3 (N.to_nat size)))]
+  | Failed e => dec_rc e ++ [0; blen B3 (rd_rest B3 (dr_rd B3 st)); dg (leaves_into items (zeros B3 (N.to_nat size)))]
+  end.
+
 Definition run_sched (a : list N) : list N :=
   let s := sched_setup a in
   let data := ss_data s in
@@ -58,7 +70,10 @@ Definition run_sched (a : list N) : list N :=
     let stream := cut_bytes (ss_cut s) (flat B3 (honest B3 data (ss_bs s) (ss_q s))) in
     let rd := mkRd B3 stream (ss_evs s) 0 (ss_fail s) in
     let root := root_hash B3 data in
-    if ss_driver s =? 0 then
+    if ss_driver s =? 2 then
+      let rd2 := mkRd B3 (stream ++ trailing a) (ss_evs s) 0 (ss_fail s) in
+      dr_obs (blen B3 data) (dec_run_r B3 (dec_new_r B3 root t rd2 (ss_q s)))
+    else if ss_driver s =? 0 then
       let '(items, oc, _) := dec_run_r B3 (dec_new_r B3 root t rd (ss_q s)) in items_obs oc items
     else
       let '(items, oc, _) := rd_run_r B3 (rd_new_r B3 root (ss_q s) t rd) in items_obs oc items.
@@ -106,6 +121,15 @@ Definition holds_sched (a o : list N) : bool :=
   else
     let stream := cut_bytes (ss_cut s) (flat B3 (honest B3 data (ss_bs s) (ss_q s))) in
     let root := root_hash B3 data in
+    if ss_driver s =? 2 then
+      (* the unfragmented run; without a fault nothing behind the response is taken from the transport *)
+      let plain2 := dr_obs (blen B3 data) (dec_run_r B3 (dec_new_r B3 root t (plain_reader B3 (stream ++ trailing a)) (ss_q s))) in
+      match ss_fail s, o with
+      | None, [oc; p; after; left_; d] => list_eqb o plain2 && (if (ss_cut s =? 0) && (oc =? 0) then left_ =? 300 else true)
+      | Some _, [oc; p; after; left_; d] => (after =? 0)
+      | _, _ => false
+      end
+    else
     let plain :=
       if ss_driver s =? 0 then let '(items, oc, _) := dec_run B3 (dec_new B3 root t stream (ss_q s)) in items_obs oc items
       else let '(items, oc, _) := rd_run B3 (rd_new B3 root (ss_q s) t stream) in items_obs oc items in
